@@ -206,8 +206,11 @@ AddSvg ==
                 ELSE <<PickN(149, Aligns), PickN(150, {"", "meet", "slice"})>>
          vb  == IF MaybeN(151, 25) THEN <<>> ELSE PickN(152, { <<0,0,16,16>>, <<0,0,8,16>>, <<2,2,12,6>>, <<0,0,32,32>> })
          tf  == IF MaybeN(153, 30) THEN << <<"transform", <<PickN(154, TfOps \ QOps)>>, 0>> >> ELSE <<>>
+         \* a nested svg is a container like g: what it says about painting applies to its content
+         pa  == Opt(470, "fill", Colors, 30) \o Opt(471, "opacity", {1, 2}, 15) \o Opt(472, "display", {"none"}, 6)
+                \o Opt(473, "fill-opacity", {1, 2}, 10)
      IN Push([d |-> Depth, tag |-> "svg", id |-> "",
-              at |-> tf,
+              at |-> tf \o pa,
               g |-> <<PickN(155, {0, 2, 4}), PickN(156, {0, 1, 4}), PickN(157, {8, 12, 16, -1}), PickN(158, {8, 10, 16, -1}), vb, par,
                       IF tf # <<>> THEN "visible" ELSE PickN(159, {"", "hidden", "visible", "visible"})>>,
               ref |-> ""])
